@@ -209,6 +209,10 @@ class World:
         self.cmd_count = 0
         self.fault_counts = {}
         self.sim_us_total = 0
+        if self.spec.get("symlink_mount"):
+            # the first mount component is a symbolic link to a real directory (a volume mounted through a link)
+            R_makedirs(os.path.join(self.base, "_real"))
+            os.symlink("_real", os.path.join(self.base, self.spec["mount"][0]))
         R_makedirs(self.root)
         os.environ["TZ"] = self.spec["tz"]
         _time_mod.tzset()
@@ -236,9 +240,10 @@ class World:
         self.restamp_all_dirs(default_m, {self.abspath(r): e.get("m", default_m) for r, e in dirs})
 
     def restamp_all_dirs(self, default_m, explicit=None):
-        explicit = explicit or {}
+        # keys are compared by their real path: the mount may be reached through a symbolic link
+        explicit = {os.path.realpath(k): v for k, v in (explicit or {}).items()}
         all_dirs = []
-        for d, sub, _ in os.walk(self.base):
+        for d, sub, _ in os.walk(os.path.realpath(self.base)):
             all_dirs.append(d)
         for d in sorted(all_dirs, key=lambda x: -x.count(os.sep)):
             self.set_mtime_us(d, explicit.get(d, default_m))
